@@ -301,6 +301,29 @@ func runCheck(spec *PropSpec, tier string, seed int, accept, verbose bool, overl
 			}
 		}
 		vs := Solve(g, obls, filepath.Join(workDir, clean(lastN(k, 80))), timeout, 16)
+		// an obligation the ledger records as discharged that now runs into the time limit is retried once with
+		// four times the limit before it can count as a regression (machine load is not a property violation)
+		var retry []*Obligation
+		var retryIdx []int
+		for i, v := range vs {
+			if v.Status != "unknown" || v.Obl.Cover || accept {
+				continue
+			}
+			if e, ok := ledger.Obligations[logicalName(v.Obl.Name)]; ok && e.Status == "discharged" {
+				o2 := *v.Obl
+				o2.TimeoutMs = 4 * timeout
+				retry = append(retry, &o2)
+				retryIdx = append(retryIdx, i)
+			}
+		}
+		if len(retry) > 0 {
+			rv := Solve(g, retry, filepath.Join(workDir, clean(lastN(k, 80)), "retry"), 4*timeout, 16)
+			for j, v := range rv {
+				v.Obl = vs[retryIdx[j]].Obl
+				v.Ms += vs[retryIdx[j]].Ms
+				vs[retryIdx[j]] = v
+			}
+		}
 		fr.Queries = len(vs)
 		if verbose {
 			fmt.Printf("  %s: gen %dms, solve wall %dms, %d queries\n", k, fr.GenMs, time.Since(tg).Milliseconds()-fr.GenMs, len(vs))
@@ -544,7 +567,7 @@ func runCheck(spec *PropSpec, tier string, seed int, accept, verbose bool, overl
 				st := "undecided"
 				if lr.Status == "discharged" {
 					st = "discharged"
-					if lr.Ms > int64(timeout)*int64(lr.Queries)/4 {
+					if lr.Ms > int64(timeout)*int64(lr.Queries)/2 {
 						st = "undecided" // too slow to be stable: not admitted
 					}
 				}
